@@ -239,7 +239,21 @@ def transport_class():
                     self.__dict__["first_exc"] = v
                 super().__setattr__(k, v)
 
-        _TCLS = T
+        class Once(T):
+            """A peer that, like OpenSSH, names kex-strict-*-v00 only in its initial KEXINIT (the
+            extension says later KEXINITs do not change the mode).  Only what it SENDS differs."""
+
+            def _send_kex_init(self):
+                if not self.initial_kex_done:
+                    return super()._send_kex_init()
+                saved = self.advertise_strict_kex
+                self.advertise_strict_kex = False
+                try:
+                    return super()._send_kex_init()
+                finally:
+                    self.advertise_strict_kex = saved
+
+        _TCLS = (T, Once)
     return _TCLS
 
 
@@ -281,16 +295,18 @@ def quiesce(wire, ends, transports, extra_busy=lambda: False, limit=60.0):
     return False
 
 
-def run_real(ctx_repo, kex_name, strict_c, strict_s, script, do_auth=True, do_rekey=False, ext_info=True):
+def run_real(ctx_repo, kex_name, strict_c, strict_s, script, do_auth=True, do_rekey=0, ext_info=True,
+             once_c=False, once_s=False):
     """Run one scenario on the real code; returns the observation dict."""
     import paramiko
     Recorder = make_recorder()
-    T = transport_class()
+    T, Once = transport_class()
+    do_rekey = int(do_rekey)
     wire = Wire(script)
     ec, es = End(wire, "c2s"), End(wire, "s2c")
     ec.mate, es.mate = es, ec
-    tc = T(ec, strict_kex=strict_c, packetizer_class=Recorder)
-    ts = T(es, strict_kex=strict_s, packetizer_class=Recorder, server_sig_algs=ext_info)
+    tc = (Once if once_c else T)(ec, strict_kex=strict_c, packetizer_class=Recorder)
+    ts = (Once if once_s else T)(es, strict_kex=strict_s, packetizer_class=Recorder, server_sig_algs=ext_info)
     obs = {}
     try:
         ts.add_server_key(host_key(ctx_repo))
@@ -332,9 +348,28 @@ def run_real(ctx_repo, kex_name, strict_c, strict_s, script, do_auth=True, do_re
             obs["authed"] = bool(tc.is_authenticated() and ts.is_authenticated())
             if do_rekey and obs["authed"] and tc.active and ts.active:
                 phase = 3
-                st, v = with_watchdog(lambda: tc.renegotiate_keys(), 20.0)
-                obs["rekey"] = st
-                obs["settled3"] = quiesce(wire, (ec, es), (tc, ts))
+                obs["rekey"] = "ok"
+                obs["settled3"] = True
+                for _ in range(do_rekey):
+                    if not (tc.active and ts.active and tc.initial_kex_done and ts.initial_kex_done):
+                        break
+                    st, v = with_watchdog(lambda: tc.renegotiate_keys(), 30.0)
+                    if st != "ok":
+                        obs["rekey"] = st
+                    obs["settled3"] = quiesce(wire, (ec, es), (tc, ts)) and obs["settled3"]
+                if tc.active and ts.active:
+                    # does the session still work?  a global request the server answers (REQUEST_FAILURE)
+                    phase = 4
+                    sent0 = ec.nsent
+                    th2 = threading.Thread(target=lambda: with_watchdog(
+                        lambda: tc.global_request("ping@verif", wait=True), 30.0), daemon=True)
+                    th2.start()
+                    t0 = time.time()
+                    while th2.is_alive() and ec.nsent == sent0 and time.time() - t0 < 30.0:
+                        time.sleep(0.005)
+                    obs["settled3"] = quiesce(wire, (ec, es), (tc, ts)) and obs["settled3"]
+                    th2.join(0.5 if obs["settled3"] else 30.0)
+                    obs["ping"] = bool(tc.packetizer.rx and tc.packetizer.rx[-1][0] == 82)
         obs["phase"] = phase
         for name, t, e in (("c", tc, ec), ("s", ts, es)):
             p = t.packetizer
@@ -389,8 +424,9 @@ def coq_case(sc):
     for (d, i), ops in sorted(sc["script"].items()):
         for op in ops:
             script.append((d == "c2s", i, -1 if op[0] == "drop" else op[1]))
-    return "(%d, %s, %s, true, %s, %s)" % (kex_family(sc["kex"]), coq(sc["strict_c"]), coq(sc["strict_s"]),
-                                          coq(sc["rekey"]), coq(script))
+    return "(%d, %s, %s, true, %d, %s, %s, %s)" % (
+        kex_family(sc["kex"]), coq(sc["strict_c"]), coq(sc["strict_s"]), int(sc["rekey"]),
+        coq(bool(sc.get("once_c"))), coq(bool(sc.get("once_s"))), coq(script))
 
 
 def post_newkeys_edit(sc):
@@ -422,18 +458,24 @@ def split_newkeys(tr):
 
 def oracle(ctx, sc, obs):
     """The property stated over the real code's observable behaviour."""
-    case = {"kex": sc["kex"], "strict_c": sc["strict_c"], "strict_s": sc["strict_s"], "rekey": sc["rekey"],
+    case = {"kex": sc["kex"], "strict_c": sc["strict_c"], "strict_s": sc["strict_s"], "rekey": int(sc["rekey"]),
+            "once_c": bool(sc.get("once_c")), "once_s": bool(sc.get("once_s")),
             "script": [[d, i, list(op)] for (d, i), ops in sorted(sc["script"].items()) for op in ops]}
     both = sc["strict_c"] and sc["strict_s"]
     for me, other in (("c", "s"), ("s", "c")):
         d = obs[me]
         o = obs[other]
         rx, tx = d["rx"], d["tx"]
-        if both and rx and rx[0][0] == KEXINIT and rx[0][1] == 0 and not d["agreed"] and d["status"] in (0, 5):
+        if both and rx and rx[0][0] == KEXINIT and rx[0][1] == 0 and not d["agreed"] and d["status"] in (0, 5) \
+                and not (d["done"] and sc["rekey"]):
             ctx.fail("strict-not-agreed", "both sides advertise strict kex but it was not agreed", case=case,
                      observed=d)
+        if both and not sc["script"] and d["done"] and not d["agreed"]:
+            ctx.fail("strict-not-sticky", "strict kex was agreed in the initial exchange but the flag is off "
+                     "after a re-key (a re-key KEXINIT need not repeat the kex-strict name)", case=case,
+                     expected="agreed_on_strict_kex stays True", observed=d)
         # (1) strict agreed: nothing but the expected kex messages before the initial kex is done
-        if d["agreed"]:
+        if d["agreed"] or (both and not sc["script"]):
             fam = kex_family(sc["kex"])
             want = [KEXINIT] + ([31, 21] if me == "c" else [30, 21]) if fam == DH else \
                 [KEXINIT] + ([31, 33, 21] if me == "c" else [34, 32, 21])
@@ -468,14 +510,15 @@ def oracle(ctx, sc, obs):
                     for k, (t, s) in enumerate(seg):
                         if s != k:
                             ctx.fail("seqno-not-reset", "strict kex agreed but the %s sequence number did not "
-                                     "restart at zero after NEWKEYS" % name, case=case, expected=k, observed=d)
+                                     "restart at zero after NEWKEYS (packet type %d carries %d, expected %d)"
+                                     % (name, t, s, k), case=case, expected=k, observed=d)
                             break
                 if len(segs) > 1 and final != len(segs[-1]) and not (name == "inbound" and d["status"] != 0):
                     ctx.fail("seqno-not-reset", "strict kex agreed but the %s sequence number did not restart "
                              "at zero after NEWKEYS" % name, case=case, expected=len(segs[-1]), observed=d)
             # (3) no shifted session: what this side read after NEWKEYS is exactly what the other side
             # sent after its NEWKEYS, in order, under the sender's own sequence numbers
-            if o["agreed"]:
+            if o["agreed"] or (both and not sc["script"]):
                 mine = [x for seg in split_newkeys(rx)[1:] for x in seg]
                 theirs = [x for seg in split_newkeys(o["tx"])[1:] for x in seg]
                 if mine != theirs[:len(mine)]:
@@ -486,8 +529,10 @@ def oracle(ctx, sc, obs):
         if not obs.get("authed"):
             ctx.fail("clean-handshake-fails", "an unmodified handshake + authentication does not complete",
                      case=case, observed={"c": obs["c"], "s": obs["s"]})
-        if sc["rekey"] and not (obs.get("rekey") == "ok" and obs["c"]["status"] == 0 and obs["s"]["status"] == 0):
-            ctx.fail("clean-rekey-fails", "an unmodified re-key does not complete", case=case,
+        if sc["rekey"] and not (obs.get("rekey") == "ok" and obs["c"]["status"] == 0 and obs["s"]["status"] == 0
+                                and obs.get("ping")):
+            ctx.fail("clean-rekey-fails", "the session does not survive %d unmodified re-key(s) (a global request "
+                     "sent afterwards must be answered)" % int(sc["rekey"]), case=case,
                      observed={"c": obs["c"], "s": obs["s"]})
     return case
 
@@ -496,8 +541,9 @@ def build_scenarios(ctx, kex_names):
     rng = ctx.rng
     scs = []
 
-    def add(kex, sc_, ss_, script, rekey=False, kind="inject"):
-        scs.append({"kex": kex, "strict_c": sc_, "strict_s": ss_, "script": script, "rekey": rekey, "kind": kind})
+    def add(kex, sc_, ss_, script, rekey=0, kind="inject", once_c=False, once_s=False):
+        scs.append({"kex": kex, "strict_c": sc_, "strict_s": ss_, "script": script, "rekey": int(rekey),
+                    "kind": kind, "once_c": once_c, "once_s": once_s})
 
     types = [IGNORE, DEBUG_, UNIMPL, UNKNOWN, 1, KEXINIT]
     for n, kex in enumerate(kex_names):
@@ -508,7 +554,15 @@ def build_scenarios(ctx, kex_names):
             ([(True, True), (False, False)] if fam == GEX else [(True, True)])
         # clean runs (with re-key) for every strict configuration
         for sc_, ss_ in configs:
-            add(kex, sc_, ss_, {}, rekey=True, kind="clean")
+            add(kex, sc_, ss_, {}, rekey=1, kind="clean")
+        # a peer that (like OpenSSH) names kex-strict only in its initial KEXINIT, in either role and in
+        # both: strict mode is latched by the initial exchange, counters restart at every NEWKEYS, the
+        # session survives two re-keys
+        for oc_, os_ in ((True, False), (False, True), (True, True)):
+            add(kex, True, True, {}, rekey=2, kind="rekey-no-marker", once_c=oc_, once_s=os_)
+        if full:
+            add(kex, False, False, {}, rekey=2, kind="rekey-no-marker", once_c=True, once_s=True)
+            add(kex, True, True, {}, rekey=2, kind="clean")
         # every handshake position x every injected type x both directions
         for sc_, ss_ in configs:
             for d in ("c2s", "s2c"):
@@ -559,7 +613,9 @@ def run(ctx):
                 "with both-strict / both-non-strict; thorough: every preferred kex, full matrix); deletion of "
                 "each handshake packet; deletion of the first encrypted packet; the Terrapin script (IGNORE "
                 "injected before NEWKEYS + first encrypted packet deleted); seeded random multi-edit scripts; "
-                "clean handshakes with authentication and a re-key. Every case is a full real client/server "
+                "clean handshakes with authentication and one or two re-keys, also against a peer that (like "
+                "OpenSSH) repeats its kex-strict name only in the initial KEXINIT (either role, both), followed "
+                "by a global request that must be answered. Every case is a full real client/server "
                 "handshake; a case is non-trivial when its script is non-empty or it includes a re-key")
     ctx.trusted += ["model coq/Model/C09.v is hand-written; tied to transport.py/packet.py/kex_*.py by comparing "
                     "complete (type, seqno) traces, final counters and outcome classes of real transports with "
@@ -583,24 +639,25 @@ def run(ctx):
     exact, coarse = [], []
     for sc in scs:
         obs = run_real(ctx.repo, sc["kex"], sc["strict_c"], sc["strict_s"], sc["script"],
-                       do_auth=True, do_rekey=sc["rekey"])
+                       do_auth=True, do_rekey=sc["rekey"], once_c=sc["once_c"], once_s=sc["once_s"])
         if not all(obs.get(k, True) for k in ("settled1", "settled2", "settled3")) or obs.get("auth_hang"):
             # retry once before believing anything timing dependent
             obs = run_real(ctx.repo, sc["kex"], sc["strict_c"], sc["strict_s"], sc["script"],
-                           do_auth=True, do_rekey=sc["rekey"])
+                           do_auth=True, do_rekey=sc["rekey"], once_c=sc["once_c"], once_s=sc["once_s"])
         case = oracle(ctx, sc, obs)
-        ctx.count((sc["kex"], sc["strict_c"], sc["strict_s"], sorted(sc["script"].items()), sc["rekey"]),
+        ctx.count((sc["kex"], sc["strict_c"], sc["strict_s"], sorted(sc["script"].items()), sc["rekey"],
+                   sc["once_c"], sc["once_s"]),
                   nontrivial=bool(sc["script"]) or sc["rekey"], kind=sc["kind"])
         if post_newkeys_edit(sc) or injects_newkeys(sc):
             coarse.append((sc, obs, case))
         else:
             exact.append((sc, obs, case))
-        if sc["kind"] in ("terrapin", "clean") or (sc["kind"] == "inject" and len(ctx.samples) < 3):
+        if sc["kind"] in ("terrapin", "clean", "rekey-no-marker") or (sc["kind"] == "inject" and len(ctx.samples) < 3):
             ctx.sample({"case": case, "client": {k: obs["c"][k] for k in ("status", "exc", "rx", "tx", "seqs")},
                         "server": {k: obs["s"][k] for k in ("status", "exc", "rx", "tx", "seqs")}})
 
     # ---- correspondence: whole traces against the model's network simulator ----
-    ctype = "(Z * bool * bool * bool * bool * script)"
+    ctype = "(Z * bool * bool * bool * Z * bool * bool * script)"
     bad = ctx.model_mismatches("run_scn", ctype, [(coq_case(sc), canon(obs)) for sc, obs, _ in exact])
     for i in bad[:3]:
         sc, obs, case = exact[i]
@@ -684,8 +741,10 @@ def replay(ctx, rep):
     for d, i, op in case["script"]:
         script.setdefault((d, i), []).append(tuple(op))
     sc = {"kex": case["kex"], "strict_c": case["strict_c"], "strict_s": case["strict_s"], "script": script,
-          "rekey": case.get("rekey", False), "kind": "replay"}
-    obs = run_real(ctx.repo, sc["kex"], sc["strict_c"], sc["strict_s"], script, do_auth=True, do_rekey=sc["rekey"])
+          "rekey": int(case.get("rekey", 0)), "kind": "replay", "once_c": bool(case.get("once_c")),
+          "once_s": bool(case.get("once_s"))}
+    obs = run_real(ctx.repo, sc["kex"], sc["strict_c"], sc["strict_s"], script, do_auth=True, do_rekey=sc["rekey"],
+                   once_c=sc["once_c"], once_s=sc["once_s"])
     ctx.count(("replay", repr(case)))
     ctx.count(("replay2", repr(case)))
     oracle(ctx, sc, obs)
